@@ -153,8 +153,25 @@ class LogModel:
                 if not ok:
                     return ok, why
                 continue
+            if isinstance(s, ast.For) and not s.orelse:
+                # a loop over effect-free values whose body only logs (e.g. over prepared message strings)
+                bad = self.effect_free(f, s.iter)
+                if bad:
+                    return False, f"line {s.lineno}: loop over {bad}"
+                loopvars = {x.id for x in ast.walk(s.target) if isinstance(x, ast.Name)}
+                inside = {id(x) for x in ast.walk(s)}
+                leaks = [x for x in ast.walk(f.node) if isinstance(x, ast.Name) and x.id in loopvars and id(x) not in inside]
+                if leaks:
+                    return False, f"line {s.lineno}: loop variable `{leaks[0].id}` of a logging loop is used at line {leaks[0].lineno}"
+                ok, why = self.logging_only(s.body, f, tainted | loopvars, in_helper, region_root)
+                if not ok:
+                    return ok, why
+                continue
             if isinstance(s, ast.Return) and in_helper and (s.value is None or isinstance(s.value, ast.Constant)):
                 continue
+            if isinstance(s, ast.Return) and in_helper and self.effect_free(f, s.value) is None and \
+                    not any(isinstance(x, ast.Call) and not (dotted(x.func) in ("bool", "int", "len")) for x in ast.walk(s.value)):
+                continue      # a display helper may report whether it displayed (a verdict computed without effects)
             if isinstance(s, (ast.Return, ast.Continue)) and not in_helper:
                 # an early exit taken for a logging reason: everything it skips must be logging-only, and the
                 # function must return the very same expression afterwards
